@@ -135,3 +135,12 @@ def register(check):
           floors={"quick": {"shutdown_runs": 300, "shutdown_late_rpcs": 500, "shutdown_inflight_checked": 500, "gracefulstop_observed_waiting": 100, "gate_releases": 5000},
                   "thorough": {"shutdown_runs": 8000, "shutdown_late_rpcs": 14000, "shutdown_inflight_checked": 14000}},
           assumptions=COMMON_ASSUMPTIONS + ["'in flight' = handler already invoked when the shutdown call was issued; 'afterwards' = started after the shutdown call returned (forward) / was observed blocked (reverse)"])
+    check("C11",
+          level="exploration",
+          rule="configuration table: library<->library {enabled, client-disabled, server-disabled, both-disabled, header-stripped legacy} x {forward, reverse, nested-ff, nested-rf} with mixed-shape workloads up to 200 kB; real server {enabled, disabled} <-> scripted revision-zero client and real client {enabled, disabled} <-> scripted revision-zero server, "
+               "all four shapes with messages larger than a window; raw servers sending every settings variant (revision lists 01/10/1/0/empty/unknown/unknown+0/unknown+1/duplicates/many, windows 1/100/16384/2^32-1/0, wrong stream ids, wrong first frame x4, end of stream, error, silence, settings twice) "
+               "x {forward, reverse} x client {enabled, disabled}; judged by the wire monitor (settings presence, revision, window_update alphabet) and API outcomes; non-trivial = a negotiation verdict was reached; distinct = distinct (family, cfg, variant, outcome shape)",
+          nontrivial="tap_events",
+          floors={"quick": {"settings_runs": 100, "settings_expect_ok": 40, "settings_expect_error": 30, "settings_expect_blocked": 4, "legacy_client_runs": 4, "legacy_server_runs": 4, "interop_rpcs_checked": 150, "legacy_rpcs_checked": 16, "rpcs": 40},
+                  "thorough": {"settings_runs": 4000, "interop_rpcs_checked": 6000, "legacy_rpcs_checked": 600}},
+          assumptions=COMMON_ASSUMPTIONS + ["an endpoint with flow control disabled still advertises negotiation and exchanges settings listing only revision zero: conformant, not flagged"])
